@@ -253,6 +253,8 @@ def run_check(prop: str, tier: str, verif_seed: int, *, budget: float | None = N
               f"worker_failures={worker_fail} (of {agg.runs} runs, {nw} workers)")
         for i, e in agg.harness_errors[:3]:
             print(f"  run={i}: {e.splitlines()[0][:200]}")
+        if worker_fail and os.environ.get("CIRSIM_DEBUG"):
+            print("\n".join(stderr_tail[-80:]), file=sys.stderr)
     if rc == 2 and not quiet:
         for i, e in agg.harness_errors[:5]:
             print(f"HARNESS-ERROR run={i}: {e}", file=sys.stderr)
